@@ -73,6 +73,23 @@ Section Laws.
     specialize (H3 o2 Hi2). apply orb_true_iff in H3. destruct H3 as [Hn|Hm]; [|apply mat_eqb_spec, Hm].
     apply negb_true_iff in Hn. apply vec_eqb_spec in E. congruence.
   Qed.
+  (* counting: any list holding all corrected vectors is at least as long as the number of valid connection matrices --
+     the design space an encoder lists ("all design vectors") is never smaller than the set of connection sets *)
+  Definition mat_of (x : list Z) : matrix :=
+    match find (fun o => vec_eqb (o_out o) x) tbl with Some o => o_mat o | None => [] end.
+
+  Theorem coding_count outs : (forall o, In o tbl -> In (o_out o) outs) -> length (enum_M s e) <= length outs.
+  Proof.
+    intros Hall. rewrite <- (map_length mat_of outs).
+    apply NoDup_incl_length; [apply enum_M_NoDup|].
+    intros M HM. apply enum_M_exact in HM. destruct (coding_onto M HM) as [o [Hin Hm]].
+    apply in_map_iff. exists (o_out o). split; [|apply Hall, Hin].
+    unfold mat_of. destruct (find (fun o0 => vec_eqb (o_out o0) (o_out o)) tbl) as [o'|] eqn:Ef.
+    - apply find_some in Ef. destruct Ef as [Hin' Hv]. apply vec_eqb_spec in Hv.
+      rewrite <- Hm. apply coding_injective; assumption.
+    - exfalso. apply (find_none _ _ Ef) in Hin. assert (Ht : vec_eqb (o_out o) (o_out o) = true) by (apply vec_eqb_spec; reflexivity).
+      congruence.
+  Qed.
 End Laws.
 
 Theorem verdict_zero_iff s e nopts tbl : coding_verdict s e nopts tbl = 0 <-> coding_ok s e nopts tbl = true.
